@@ -14,7 +14,10 @@
 //!                                 kind 1 = Int with the two's complement value hi:lo
 //!            (23 tok secs q ns)   insert_data into dataset s<tok>, key kdt, a Datetime value (unix seconds,
 //!                                 offset q quarter hours, nanoseconds)
-//! opts     = (milestone_interval use_include)
+//! opts     = (milestone_interval use_include flags [load])   the configuration the store is built with;
+//!            flags: bit 0 generate_ids, bit 1 strip_temp_ids off, bits 2..7 a reverse index off each;
+//!            load = (milestone_interval use_include flags) the configuration given to from_file, chosen
+//!            independently (bit 8 of its flags: shrink_to_fit off); absent = the build configuration
 use crate::out::{guard, Out};
 use crate::rng::Rng;
 use crate::storegen;
@@ -292,6 +295,60 @@ fn obs_queries(store: &AnnotationStore, pool: &[String]) -> Sx {
     l(v)
 }
 
+/// every setting of a Config that is stored in the file and has a public getter
+fn config_sx(c: &Config) -> Sx {
+    l(vec![
+        b(c.generate_ids()),
+        b(c.strip_temp_ids()),
+        b(c.use_include()),
+        a(c.milestone_interval() as i64),
+        b(c.textrelationmap()),
+        b(c.resource_annotation_map()),
+        b(c.dataset_annotation_map()),
+        b(c.annotation_annotation_map()),
+        b(c.key_annotation_metamap()),
+        b(c.data_annotation_metamap()),
+        opt_bytes(c.workdir().and_then(|p| p.to_str())),
+    ])
+}
+
+/// what an insertion WITHOUT identifiers does after the load: the same on the saved and on the
+/// loaded store (generated ids or none, the same handles, the same lookups afterwards)
+fn post_load(store: &mut AnnotationStore) -> Sx {
+    let live = (0..store.resources_len()).find(|h| store.resource(TextResourceHandle::new(*h)).is_some());
+    let target = match live {
+        Some(h) => l(vec![a(0), l(vec![a(1), a(h as i64)]), l(vec![a(0), a(0)]), l(vec![a(0), a(0)])]),
+        None => a(-1),
+    };
+    let data = l(vec![l(vec![a(0), a(0)]), a(-1), l(vec![a(0), a(0)]), l(vec![a(2), a(1)])]);
+    let o1 = storegen::apply(store, &l(vec![a(3), a(-1), target, l(vec![data])]));
+    let o2 = storegen::apply(store, &l(vec![a(2), l(vec![l(vec![a(0), a(0)]), a(-1), l(vec![a(0), a(1)]), l(vec![a(2), a(2)])])]));
+    let idlen = |id: Option<&str>| a(id.map(|s| s.len() as i64).unwrap_or(-1));
+    let ann = guard(|| {
+        if o1.nth(0).int() == 1 {
+            match store.annotation(AnnotationHandle::new(o1.nth(1).int() as usize)) {
+                Some(x) => l(vec![idlen(x.id()), l(x.data().map(|d| idlen(d.id())).collect())]),
+                None => a(-2),
+            }
+        } else {
+            a(-3)
+        }
+    })
+    .unwrap_or_else(panic_sx);
+    let dat = guard(|| {
+        if o2.nth(0).int() == 1 {
+            match store.dataset("s0").and_then(|s| s.annotationdata(AnnotationDataHandle::new(o2.nth(1).int() as usize))) {
+                Some(d) => idlen(d.id()),
+                None => a(-2),
+            }
+        } else {
+            a(-3)
+        }
+    })
+    .unwrap_or_else(panic_sx);
+    l(vec![o1, o2, ann, dat, digest(&l(storegen::observe(store))), config_sx(store.config())])
+}
+
 /// STAM JSON of the whole store (stand-off members appear as @include), text validation, counters,
 /// the configuration switches
 fn obs_misc(store: &AnnotationStore) -> Sx {
@@ -331,17 +388,19 @@ fn obs_misc(store: &AnnotationStore) -> Sx {
         ])
     })
     .unwrap_or_else(panic_sx);
-    let c = store.config();
-    let cfg = l(vec![
-        b(c.textrelationmap()),
-        b(c.resource_annotation_map()),
-        b(c.dataset_annotation_map()),
-        b(c.annotation_annotation_map()),
-        b(c.generate_ids()),
-        b(c.use_include()),
-        a(c.milestone_interval() as i64),
-        b(c.strip_temp_ids()),
-    ]);
+    // the configuration the file carries: the store's and each member's own (debug and
+    // shrink_to_fit are documented to come from the Config given to from_file)
+    let cfg = guard(|| {
+        let mut v = vec![config_sx(store.config())];
+        for r in store.resources() {
+            v.push(config_sx(r.as_ref().config()));
+        }
+        for d in store.datasets() {
+            v.push(config_sx(d.as_ref().config()));
+        }
+        l(v)
+    })
+    .unwrap_or_else(panic_sx);
     // temporary ids (!A0, !R0 ...) resolve through the resolve_temp_ids flag of the id maps
     let temp = guard(|| {
         let mut v = Vec::new();
@@ -453,6 +512,7 @@ fn store_view(store: &AnnotationStore) -> Sx {
                         l(tsels),
                         sorted_handles(r.annotations_as_metadata()),
                         l(posidx),
+                        config_sx(res.config()),
                     ])
                 }
             })
@@ -505,13 +565,14 @@ fn store_view(store: &AnnotationStore) -> Sx {
                         l(keys),
                         l(data),
                         sorted_handles(s.annotations()),
+                        config_sx(s.as_ref().config()),
                     ])
                 }
             })
             .unwrap_or_else(panic_sx)
         })
         .collect();
-    l(vec![l(anns), l(ress), l(sets)])
+    l(vec![l(anns), l(ress), l(sets), config_sx(store.config())])
 }
 
 // ---------------------------------------------------------------------------------------------
@@ -780,14 +841,48 @@ impl Ctx {
         Ctx { dir, counter: AtomicUsize::new(0), last_cov: std::cell::RefCell::new(Vec::new()) }
     }
 
+    /// the configuration the store is BUILT with (it is part of the saved store)
     fn config(&self, opts: &Sx) -> Config {
         let mi = opts.nth(0).int();
+        let f = opts.nth(2).int();
         Config::default()
-            .with_generate_ids(false)
+            .with_generate_ids(f & 1 != 0)
+            .with_strip_temp_ids(f & 2 == 0)
+            .with_textrelationmap(f & 4 == 0)
+            .with_resource_annotation_map(f & 8 == 0)
+            .with_dataset_annotation_map(f & 16 == 0)
+            .with_annotation_annotation_map(f & 32 == 0)
+            .with_key_annotation_metamap(f & 64 == 0)
+            .with_data_annotation_metamap(f & 128 == 0)
             .with_debug(false)
             .with_workdir(self.dir.clone())
             .with_milestone_interval(if mi <= 0 { 100 } else { mi as usize })
             .with_use_include(opts.nth(1).int() != 0)
+    }
+
+    /// the configuration given to from_file: chosen independently of the one the store was built
+    /// with; it only says how to load (opts[3] absent = the build configuration, as in old requests)
+    fn load_config(&self, opts: &Sx) -> Config {
+        let lo = opts.nth(3);
+        if lo.list().is_empty() {
+            return self.config(opts);
+        }
+        let mi = lo.nth(0).int();
+        let f = lo.nth(2).int();
+        Config::default()
+            .with_generate_ids(f & 1 != 0)
+            .with_strip_temp_ids(f & 2 == 0)
+            .with_textrelationmap(f & 4 == 0)
+            .with_resource_annotation_map(f & 8 == 0)
+            .with_dataset_annotation_map(f & 16 == 0)
+            .with_annotation_annotation_map(f & 32 == 0)
+            .with_key_annotation_metamap(f & 64 == 0)
+            .with_data_annotation_metamap(f & 128 == 0)
+            .with_shrink_to_fit(f & 256 == 0)
+            .with_debug(false)
+            .with_workdir(self.dir.clone())
+            .with_milestone_interval(if mi <= 0 { 100 } else { mi as usize })
+            .with_use_include(lo.nth(1).int() != 0)
     }
 
     pub fn exec(&self, req: &Sx) -> (Sx, Vec<Sx>, bool) {
@@ -821,17 +916,18 @@ impl Ctx {
         };
         let bytes: Vec<u8> = if saved == 1 { std::fs::read(&path).unwrap_or_default() } else { Vec::new() };
         let loaded = if saved == 1 {
-            guard(|| AnnotationStore::from_file(fname.as_str(), self.config(opts)))
+            guard(|| AnnotationStore::from_file(fname.as_str(), self.load_config(opts)))
         } else {
             Some(Err(StamError::OtherError("not saved")))
         };
+        let nontrivial = store.annotations_len() > 0 && saved == 1 && outcomes.iter().any(|o| o.nth(0).int() == 1);
         let mut sections_in = Vec::new(); // what the original answered (goes to the model, which demands the same of the reload)
         let mut sections_out = Vec::new(); // what the reloaded store answers
         let mut load_code = 1;
         let view_orig = store_view(&store);
         let mut view_back = a(-9);
         match loaded {
-            Some(Ok(store2)) => {
+            Some(Ok(mut store2)) => {
                 let back = observe_full(&store2, &pool);
                 for (o, r) in orig.iter().zip(back.iter()) {
                     if o == r {
@@ -849,8 +945,22 @@ impl Ctx {
                 let fname2 = format!("case{}b.store.stam.cbor", n % 4);
                 let path2 = format!("{}/{}", self.dir, fname2);
                 let tree1 = canonical_tree(&bytes);
+                // the other way into the CBOR loader: any file name, data format given in the Config
+                let fname_b = format!("case{}.bin", n % 4);
+                let path_b = format!("{}/{}", self.dir, fname_b);
+                let other_route = guard(|| {
+                    if std::fs::write(&path_b, &bytes).is_err() {
+                        return a(-5);
+                    }
+                    match AnnotationStore::from_file(fname_b.as_str(), self.load_config(opts).with_dataformat(DataFormat::CBOR)) {
+                        Ok(sb) => b(observe_full(&sb, &pool) == back && store_view(&sb) == view2),
+                        Err(_) => a(0),
+                    }
+                })
+                .unwrap_or_else(|| a(-1));
+                let _ = std::fs::remove_file(&path_b);
                 let second = guard(|| {
-                    let mut s2 = store2;
+                    let s2 = &mut store2;
                     s2.set_filename(fname2.as_str());
                     if s2.save().is_err() {
                         return (a(0), a(0));
@@ -861,11 +971,21 @@ impl Ctx {
                         (Some(Item::Arr(mut t1)), Some(Item::Arr(mut t2))) if t1.len() == t2.len() && t1.len() > 200 => {
                             t1[200] = Item::Simple(22);
                             t2[200] = Item::Simple(22);
+                            // debug (0) and shrink_to_fit (5) of the store's Config are documented to
+                            // come from the Config given to from_file
+                            for t in [&mut t1, &mut t2] {
+                                if let Item::Arr(c) = &mut t[1] {
+                                    if c.len() > 5 {
+                                        c[0] = Item::Simple(22);
+                                        c[5] = Item::Simple(22);
+                                    }
+                                }
+                            }
                             b(t1 == t2)
                         }
                         _ => a(0),
                     };
-                    match AnnotationStore::from_file(fname2.as_str(), self.config(opts)) {
+                    match AnnotationStore::from_file(fname2.as_str(), self.load_config(opts)) {
                         Ok(s3) => {
                             let third = observe_full(&s3, &pool);
                             (b(third == back), same_file)
@@ -879,6 +999,13 @@ impl Ctx {
                 sections_out.push(second.0);
                 sections_in.push(a(1));
                 sections_out.push(second.1);
+                sections_in.push(a(1));
+                sections_out.push(other_route);
+                // an insertion without identifiers behaves the same on the saved and the loaded store
+                let p_orig = post_load(&mut store);
+                let p_back = post_load(&mut store2);
+                sections_in.push(p_orig);
+                sections_out.push(p_back);
                 view_back = view2;
             }
             Some(Err(_)) => {
@@ -887,10 +1014,10 @@ impl Ctx {
                     sections_in.push(digest(o));
                     sections_out.push(err_sx());
                 }
-                sections_in.push(a(1));
-                sections_out.push(a(0));
-                sections_in.push(a(1));
-                sections_out.push(a(0));
+                for _ in 0..4 {
+                    sections_in.push(a(1));
+                    sections_out.push(a(0));
+                }
             }
             None => {
                 load_code = -1;
@@ -898,10 +1025,10 @@ impl Ctx {
                     sections_in.push(digest(o));
                     sections_out.push(panic_sx());
                 }
-                sections_in.push(a(1));
-                sections_out.push(a(-1));
-                sections_in.push(a(1));
-                sections_out.push(a(-1));
+                for _ in 0..4 {
+                    sections_in.push(a(1));
+                    sections_out.push(a(-1));
+                }
             }
         }
         let _ = std::fs::remove_file(&path);
@@ -916,7 +1043,6 @@ impl Ctx {
         implout.push(b(strict_one_item(&bytes)));
         // the index dump of the reloaded store
         implout.push(view_back);
-        let nontrivial = store.annotations_len() > 0 && saved == 1 && outcomes.iter().any(|o| o.nth(0).int() == 1);
         (input, implout, nontrivial)
     }
 }
@@ -993,9 +1119,32 @@ fn strict_one_item(b: &[u8]) -> bool {
     item(b, &mut pos, 0) && pos == b.len()
 }
 
+/// bit 0 generate_ids on, bit 1 strip_temp_ids off, bits 2..7 one reverse index switched off each
+fn flags(rng: &mut Rng) -> i64 {
+    let mut f = 0i64;
+    if rng.chance(1, 3) {
+        f |= 1;
+    }
+    if rng.chance(1, 6) {
+        f |= 2;
+    }
+    if rng.chance(1, 5) {
+        f |= 4 << rng.below(6);
+    }
+    f
+}
+
+/// build configuration and, independently, the configuration given to from_file
 fn opts(rng: &mut Rng) -> Sx {
     let mi = *rng.pick(&[0i64, 1, 2, 3, 7, 100]);
-    l(vec![a(mi), a(if rng.chance(1, 4) { 0 } else { 1 })])
+    let build = vec![a(mi), a(if rng.chance(1, 4) { 0 } else { 1 }), a(flags(rng))];
+    let mut v = build;
+    if rng.chance(3, 4) {
+        let lmi = *rng.pick(&[0i64, 1, 2, 3, 7, 100]);
+        let lf = flags(rng) | if rng.chance(1, 3) { 256 } else { 0 };
+        v.push(l(vec![a(lmi), a(rng.below(2) as i64), a(lf)]));
+    }
+    l(v)
 }
 
 /// a history from the shared generator, with the C11-only operations mixed in
@@ -1130,6 +1279,6 @@ pub fn generate(out: &mut Out, tier: &str, seed: u64) {
     let _ = std::fs::remove_dir_all(&ctx.dir);
 }
 
-pub const RULE: &str = "Seeded random histories from the shared store generator (add_resource / add_dataset / insert_data / annotate with all selector kinds incl. relative offsets and complex selectors with range compression / remove_annotation / remove_data / remove_key (strict and not) / remove_resource / remove_dataset, ids and handles, one in 12 references invalid) with protect_text (4 modes) and stand-off resources/datasets mixed in; milestone interval in {100,1,2,3,7}, use_include on/off. Each final store is saved with save() to *.store.stam.cbor, loaded with from_file, saved and loaded once more. One evaluation = one compared section (6 observation sections: every item by handle with all reverse lookups and id resolution; texts, textselections() forward and reverse, utf8byte/utf8byte_to_charpos at every position; find_data pools; related_text of every known selection x 10 operators; a STAMQL query pool instantiated with the store's ids; STAM JSON digest, validate_text, index_totalcount, config switches), the second generation, save/load status, the file bytes against the model's re-encoding under the extracted schema, strict well-formedness of the file. Non-trivial = the store has annotations and was saved. distinct = distinct (observation digests, file bytes).";
+pub const RULE: &str = "Seeded random histories from the shared store generator (add_resource / add_dataset / insert_data / annotate with all selector kinds incl. relative offsets and complex selectors with range compression / remove_annotation / remove_data / remove_key (strict and not) / remove_resource / remove_dataset, ids and handles, one in 12 references invalid) with protect_text (4 modes) and stand-off resources/datasets mixed in; the store is BUILT with a configuration drawn at random (milestone interval in {100,1,2,3,7}, use_include, generate_ids, strip_temp_ids, one of six reverse indices switched off) and, in 3 of 4 cases, LOADED with an independently drawn one (plus shrink_to_fit off). Each final store is saved with save() to *.store.stam.cbor, loaded with from_file, loaded again through the other route (any file name + dataformat CBOR in the Config), saved and loaded once more; finally the same id-less annotate() and insert_data() run on the saved and on the loaded store (outcome, handles, length of generated ids, lookups and configuration afterwards). One evaluation = one compared section (6 observation sections incl. the stored configuration of the store and of every resource and dataset: every item by handle with all reverse lookups and id resolution; texts, textselections() forward and reverse, utf8byte/utf8byte_to_charpos at every position; find_data pools; related_text of every known selection x 10 operators; a STAMQL query pool instantiated with the store's ids; STAM JSON digest, validate_text, index_totalcount, config switches), the second generation, save/load status, the file bytes against the model's re-encoding under the extracted schema, strict well-formedness of the file. Non-trivial = the store has annotations and was saved. distinct = distinct (observation digests, file bytes).";
 
 pub const EXHAUSTIVE: bool = false;
